@@ -31,7 +31,10 @@ Operators  == {"none", "ok", "missing", "illshaped", "nonfunc", "nilmember"}
 ConstExprs == {"none", "ok", "missing", "nonfunc", "panicking", "beforeenv", "nilmember"}
 Patches    == {"none", "identity", "replaceleaf", "constnode", "replaceroot"}
 ExprClasses == {"bool", "int", "float", "string", "nil", "any", "ill", "unknown", "syntax", "lexical", "empty",
-                "boom", "nilfn", "closure", "plus", "constcall", "huge", "extreme", "widetext"}
+                "boom", "nilfn", "closure", "plus", "constcall", "huge", "extreme", "widetext",
+                \* a sub-tree that stands in two slots of its parent, nested deep: `((a ?: 1) ?: 1) ...` (the parser puts the
+                \* condition of `c ?: b` in the first branch too), `1 in 1..2 in 1..2 ...` (the range rewrite copies its left operand)
+                "sharedtree"}
 RunEnvs    == {"zero", "nil", "wrongtypes", "nilmembers"}
 
 Cfg == [env : EnvKinds, undef : BOOLEAN, opt : BOOLEAN, expect : Expects, operator : Operators,
@@ -48,6 +51,8 @@ Sensible(c) ==
   /\ (c.env = "mapnil" => c.runenv \in {"zero", "nilmembers"})
   /\ (c.patch # "none" => c.expr \in {"int", "bool", "ill", "unknown", "closure", "nil"})
   /\ (c.runenv = "wrongtypes" => c.env \in {"map", "none"})
+  /\ (c.expr = "sharedtree" => c.env = "none" /\ ~c.undef /\ c.expect = "none" /\ c.operator = "none" /\ c.constexpr = "none"
+                                /\ c.patch = "none" /\ c.runenv = "zero")
 
 Stages == <<"options", "configcheck", "parse", "check", "patchops", "visitors", "recheck", "optimize", "codegen", "run">>
 
@@ -68,7 +73,9 @@ StageResult(c, st, dv) ==
     [] st = "parse" -> IF c.expr \in {"syntax", "lexical", "empty"} THEN "error"
                        ELSE IF c.expr \in {"extreme", "widetext"} THEN "maybe-error" ELSE "ok"
     [] st = "check" ->
-         IF c.env = "mapnil" /\ c.expr \in {"any", "closure"} /\ Dev("Dev_NilMemberType") THEN "panic"   \* a nil member has a nil type
+         \* every pass visits a node once per slot it stands in: 2^depth visits (Dev_SharedSubtreeExponential)
+         IF c.expr = "sharedtree" /\ Dev("Dev_SharedSubtreeExponential") THEN "hang"
+         ELSE IF c.env = "mapnil" /\ c.expr \in {"any", "closure"} /\ Dev("Dev_NilMemberType") THEN "panic"   \* a nil member has a nil type
          ELSE IF c.expect # "none" /\ c.expr = "nil" /\ Dev("Dev_ExpectOnNilType") THEN "panic"         \* Kind() of the nil type
          ELSE IF c.patch # "none" THEN "ok"               \* with visitors the first check's error is deferred to recheck
          ELSE IF c.expr \in {"ill"} THEN "error"
@@ -106,7 +113,7 @@ Next == Advance
 Done == outcome # "ok" \/ at > Len(Stages)
 
 (* C04 on the design *)
-NoEscape == outcome # "panic"
+NoEscape == outcome \notin {"panic", "hang"}
 
 (* the outcome of the whole pipeline for a configuration under a set of deviations *)
 RECURSIVE RunPipe(_, _, _)
@@ -116,9 +123,9 @@ RunPipe(c, dv, i) ==
        IN IF r \in {"ok", "maybe-error"} THEN RunPipe(c, dv, i + 1) ELSE r
 
 AllDevs == {"Dev_ConstExprMissingPanics", "Dev_OperatorNilMember", "Dev_NilMemberType", "Dev_ExpectOnNilType",
-            "Dev_CheckerUnknownConstantNode"}
+            "Dev_CheckerUnknownConstantNode", "Dev_SharedSubtreeExponential"}
 (* the deviations under which this configuration's panic escapes *)
-EscapesUnder(c) == {d \in AllDevs : RunPipe(c, {d}, 1) = "panic"}
+EscapesUnder(c) == {d \in AllDevs : RunPipe(c, {d}, 1) \in {"panic", "hang"}}
 
 PipeCase == [cfg |-> cfg, designed |-> RunPipe(cfg, {}, 1), hazards |-> EscapesUnder(cfg)]
 EmitPipe == (at = 1 /\ PipeEmit = "cases") => PrintT(ToJson(PipeCase))
